@@ -8,6 +8,7 @@ import io
 import json
 import logging
 import os
+from pathlib import Path
 import shutil
 import tempfile
 import threading
@@ -32,6 +33,8 @@ TRUSTED = [
     "SHA-512 (accessories_hash, setup hash) as an arbitrary / injective function; zeroconf ServiceInfo, asyncio, h11 "
     "as libraries (asyncio: callbacks run to completion on the loop thread, call_soon_threadsafe is FIFO, no "
     "data_received after transport.close())",
+    "M6 is never a delayed response: checked on the source (AST: only handle_resource assigns response.task) and by "
+    "complete real pair-setup runs of the reference controller (harness/ref/pairsetup_client.py, srp_client.py)",
     "harness generators, harness/ref/dnslabel.py, harness/ref/xhm.py (independent oracles); a well-formed MAC "
     "(XX:XX:XX:XX:XX:XX); safe_mode left at its default (False)",
 ]
@@ -591,6 +594,116 @@ def oracle_restart(ctx: Ctx, case, got):
         ctx.fail("C18:config-number-not-moved", f"restart with {case['kind']}: config number stayed {got['c1']}", rep)
 
 
+# ----------------------------------------------------------------------------- stream 4b: restarts in NEW processes
+
+
+def child_restart(persist_file: str, cfg: Dict[str, Any]) -> Dict[str, Any]:
+    """(runs in the child, harness/c18_child.py) one start of the accessory on the shared persist file"""
+    m = _mods()
+    with real_driver(m, persist_file, patch_persist=False) as env:
+        loaded = None
+        if os.path.exists(persist_file):
+            env.driver.load()
+            loaded = env.driver.state.config_version
+        root, _ = build_accessories(m, env.driver, cfg)
+        env.driver.add_accessory(root)
+        start_driver(env)
+        out = {"loaded": loaded, "c": env.driver.state.config_version, "h": env.driver.state.accessories_hash,
+               "adv": env.events[0]["c#"] if env.events else None, "hashseed": os.environ.get("PYTHONHASHSEED"),
+               "pyhap": os.path.dirname(os.path.realpath(m.accessory_driver.__file__))}
+        env.driver.persist()
+    return out
+
+
+# str hash seeds under which a set of the four numeric property names iterates in pairwise different orders
+HASH_SEEDS = ["1", "2", "3", "5", "6"]
+
+
+def gen_xrestart_chain(rng) -> Dict[str, Any]:
+    """A life of one accessory over several interpreter starts: unchanged restarts (values may differ),
+    one structural or metadata change, unchanged again."""
+    base = {"bridge": False, "accs": [{"name": "Lamp", "aid": 1, "services": [
+        {"type": "Lightbulb", "opt": ["Brightness", "Hue"], "vals": {"On": True, "Brightness": 37}, "meta": {}, "desc": {}},
+        {"type": "TemperatureSensor", "opt": [], "vals": {"CurrentTemperature": 21.5}, "meta": {}, "desc": {}},
+        {"type": "Fan", "opt": ["RotationSpeed"], "vals": {"RotationSpeed": 50}, "meta": {}, "desc": {}},
+    ]}]}
+    seeds = list(HASH_SEEDS)
+    rng.shuffle(seeds)
+    runs = []
+    cur = base
+    n_before = rng.choice([2, 3])
+    for k in range(n_before + 1):
+        cfg = json.loads(json.dumps(cur))
+        if k and rng.random() < 0.6:  # only values differ
+            cfg["accs"][0]["services"][0]["vals"]["Brightness"] = rng.choice([0, 50, 100])
+            cfg["accs"][0]["services"][0]["vals"]["On"] = rng.random() < 0.5
+        runs.append({"seed": seeds[k % len(seeds)], "cfg": cfg, "expect": "first" if k == 0 else "same"})
+    changed = json.loads(json.dumps(cur))
+    kind = rng.choice(["add-service", "metadata", "add-char"])
+    if kind == "add-service":
+        changed["accs"][0]["services"].append({"type": "Switch", "opt": [], "vals": {}, "meta": {}, "desc": {}})
+    elif kind == "metadata":
+        changed["accs"][0]["services"][0]["meta"]["Brightness"] = {"minValue": 10}
+        changed["accs"][0]["services"][0]["vals"].pop("Brightness", None)
+    else:
+        changed["accs"][0]["services"][1]["opt"].append("StatusActive")
+    runs.append({"seed": seeds[(n_before + 1) % len(seeds)], "cfg": changed, "expect": "moved", "change": kind})
+    runs.append({"seed": seeds[(n_before + 2) % len(seeds)], "cfg": changed, "expect": "same"})
+    return {"cfg0": rng.choice([None, 65535, 65534, 7]), "runs": runs}
+
+
+def impl_xrestart(chain) -> Dict[str, Any]:
+    """Each run in a fresh interpreter with its own PYTHONHASHSEED, sharing one persist file."""
+    import subprocess
+    import sys
+
+    child = str(Path(__file__).resolve().parent.parent / "c18_child.py")
+    tmp = tempfile.mkdtemp(prefix="c18-xrestart-")
+    pf = os.path.join(tmp, "accessory.state")
+    outs = []
+    try:
+        if chain.get("cfg0") is not None:
+            # a previous life left this configuration number (and no hash) behind
+            m = _mods()
+            with real_driver(m, pf, patch_persist=False) as env:
+                env.driver.state.config_version = chain["cfg0"]
+                env.driver.persist()
+        for r in chain["runs"]:
+            env_vars = dict(os.environ, PYTHONHASHSEED=r["seed"])
+            p = subprocess.run([sys.executable, child, pf, json.dumps(r["cfg"])], env=env_vars, capture_output=True,
+                               text=True, timeout=120)
+            line = next((l for l in reversed(p.stdout.splitlines()) if l.startswith("{")), None)
+            if p.returncode != 0 or line is None:
+                raise RuntimeError(f"c18_child failed: rc={p.returncode} {p.stderr[-400:]}")
+            outs.append(json.loads(line))
+    finally:
+        shutil.rmtree(tmp, ignore_errors=True)
+    return {"outs": outs}
+
+
+def oracle_xrestart(ctx: Ctx, chain, got):
+    rep = {"kind": "xrestart", "chain": chain}
+    prev = None
+    for r, o in zip(chain["runs"], got["outs"]):
+        c = o["c"]
+        if not (isinstance(c, int) and 1 <= c <= 65535):
+            ctx.fail("C18:config-number-out-of-range", f"config number {c} after a start in a new process", rep)
+            return
+        if o["adv"] != str(c):
+            ctx.fail("C18:cfg-not-advertised", f"registered c#={o['adv']!r}, state {c}", rep)
+            return
+        if r["expect"] == "same" and c != prev:
+            ctx.fail("C18:config-number-moved-without-change:across-processes",
+                     f"restart of an unchanged accessory in a new interpreter (PYTHONHASHSEED={r['seed']}): "
+                     f"config number {prev} -> {c}", rep)
+            return
+        if r["expect"] == "moved" and c == prev:
+            ctx.fail("C18:config-number-not-moved:across-processes",
+                     f"restart with {r.get('change')} in a new interpreter: config number stayed {c}", rep)
+            return
+        prev = c
+
+
 # ----------------------------------------------------------------------------- stream 5: values never move the hash
 
 
@@ -743,6 +856,24 @@ def gen_sys_script(rng, big=False) -> Dict[str, Any]:
     return {"paired": paired, "conns": conns, "steps": steps}
 
 
+def gen_real_script(rng) -> Dict[str, Any]:
+    """Scripts around complete real pair-setup exchanges (about 85 ms each, so only a handful per run)."""
+    sched = lambda: rng.choice([[], [{"step": "exec", "i": 0}], [{"step": "drain"}], [{"step": "exec", "i": 0}, {"step": "drain"}],
+                                [{"step": "drain"}, {"step": "exec", "i": 0}, {"step": "drain"}]])
+    c0 = rng.randrange(3)
+    conns = {"0": None, "1": c0, "2": rng.choice([None, c0, (c0 + 1) % 3])}
+    steps = [{"step": "request", "conn": 0, "req": "m5real", "client": c0}] + sched()
+    if rng.random() < 0.5:
+        steps += [{"step": "request", "conn": 2, "req": rng.choice(["other", "add", "resource"]), "session": conns["2"],
+                   "client": (c0 + 1) % 3, "admin": rng.random() < 0.5}]
+    if rng.random() < 0.7:
+        steps += [{"step": "request", "conn": 1, "req": "remove", "session": c0, "client": c0}] + sched()
+        if rng.random() < 0.6:
+            steps += [{"step": "request", "conn": 0, "req": "m5real", "client": (c0 + 1) % 3}] + sched()
+    steps.append({"step": "quiesce"})
+    return {"paired": [], "conns": conns, "steps": steps}
+
+
 BOUNDARY_SCRIPTS = [
     # pair-setup completes: record must flip to sf=0 after the M6 write
     {"paired": [], "conns": {"0": None}, "steps": [
@@ -774,6 +905,19 @@ BOUNDARY_SCRIPTS = [
         {"step": "request", "conn": 0, "req": "remove", "session": 0, "client": 0},
         {"step": "request", "conn": 0, "req": "other"},
         {"step": "request", "conn": 2, "req": "m5", "client": 2, "ok": True}, {"step": "quiesce"}]},
+    # complete REAL pair-setup (reference controller, M1..M5 through _pairing_five), refresh run at once;
+    # then the admin removes itself over its verified session and a second controller pairs
+    {"paired": [], "conns": {"0": None, "1": 0}, "steps": [
+        {"step": "request", "conn": 0, "req": "m5real", "client": 0}, {"step": "exec", "i": 0}, {"step": "drain"},
+        {"step": "request", "conn": 1, "req": "remove", "session": 0, "client": 0}, {"step": "exec", "i": 0}, {"step": "drain"},
+        {"step": "request", "conn": 0, "req": "m5real", "client": 1}, {"step": "quiesce"}]},
+    # real pair-setup with the loop running before the executor
+    {"paired": [], "conns": {"0": None}, "steps": [
+        {"step": "request", "conn": 0, "req": "m5real", "client": 2}, {"step": "drain"}, {"step": "exec", "i": 0},
+        {"step": "drain"}, {"step": "quiesce"}]},
+    # pair-setup against an accessory that is already paired is refused at M1
+    {"paired": [[0, True]], "conns": {"0": None}, "steps": [
+        {"step": "request", "conn": 0, "req": "m5real", "client": 1}, {"step": "quiesce"}]},
     # failed M5 and unauthorised pairings requests change nothing
     {"paired": [], "conns": {"0": None}, "steps": [
         {"step": "request", "conn": 0, "req": "m5", "client": 0, "ok": False},
@@ -795,13 +939,16 @@ class FakeTransport(asyncio.Transport):
     def set_write_buffer_limits(self, high=None, low=None):
         pass
 
+    last: Optional[bytes] = None  # the bytes of the most recent write (read by the reference controller)
+
     def write(self, data):
         # like a real transport: bytes handed over after close() are discarded, not sent
         self.events.append({"ev": "discarded-write" if self.closed else "write", "conn": self.conn, "n": len(data)})
+        if not self.closed:
+            self.last = bytes(data)
 
     def writelines(self, lines):
-        self.events.append({"ev": "discarded-write" if self.closed else "write", "conn": self.conn,
-                            "n": sum(len(x) for x in lines)})
+        self.write(b"".join(bytes(x) for x in lines))
 
     def is_closing(self):
         return self.closed
@@ -816,6 +963,37 @@ class FakeTransport(asyncio.Transport):
 def _request_bytes(path: str, body: bytes, method="POST") -> bytes:
     return (f"{method} {path} HTTP/1.1\r\nHost: x._hap._tcp.local\r\nContent-Length: {len(body)}\r\n"
             "Content-Type: application/pairing+tlv8\r\n\r\n").encode() + body
+
+
+def _http_body(raw: Optional[bytes]) -> Optional[bytes]:
+    if not raw or b"\r\n\r\n" not in raw:
+        return None
+    return raw.split(b"\r\n\r\n", 1)[1]
+
+
+def real_pair_setup(deliver, conn: int, client: int, code: bytes):
+    """M1, M3, M5 of the independent reference controller (harness/ref/pairsetup_client.py,
+    srp_client.py) for controller `client`; every message goes through `deliver`."""
+    import hashlib
+
+    from cryptography.hazmat.primitives.asymmetric import ed25519
+
+    from ref import pairsetup_client as pc, srp_client as srp
+
+    other = {"step": "request", "conn": conn, "req": "other"}
+    t = pc.parse(_http_body(deliver(conn, "ps-m1", _request_bytes("/pair-setup", pc.m1_body()), dict(other))) or b"")
+    if not t or t.get(pc.T_STATE) != b"\x02" or pc.T_ERROR in t or pc.T_SALT not in t or pc.T_PUBLIC_KEY not in t:
+        return "M2-refused"  # e.g. already paired: the accessory answers 'unavailable'
+    a = int.from_bytes(hashlib.sha512(b"C18 controller secret %d" % client).digest()[:32], "big")
+    cl = srp.client(code, t[pc.T_SALT], t[pc.T_PUBLIC_KEY], a)
+    t = pc.parse(_http_body(deliver(conn, "ps-m3", _request_bytes("/pair-setup", pc.m3_body(cl.A_bytes, cl.M1)), dict(other))) or b"")
+    if not t or t.get(pc.T_STATE) != b"\x04" or pc.T_ERROR in t:
+        return "M4-refused"
+    ltsk = ed25519.Ed25519PrivateKey.from_private_bytes(bytes([client + 1]) * 32)
+    sub, _ltpk = pc.m5_subtlv(cl.K, _uname(client), ltsk)
+    deliver(conn, "m5real", _request_bytes("/pair-setup", pc.m5_body(cl.K, sub)),
+            {"step": "request", "conn": conn, "req": "m5", "client": client, "ok": True}, m5ok=True)
+    return "M5-sent"
 
 
 def impl_sys(m, script) -> Dict[str, Any]:
@@ -870,21 +1048,47 @@ def impl_sys(m, script) -> Dict[str, Any]:
                 execs_since_spin = 0
                 spin(loop)
 
+            def deliver(conn, kind, data, model_step, crafted=None, m5ok=False):
+                """One request on `conn` through the real data_received (h11, dispatch, _process_response);
+                returns the bytes written in answer during the call, None if nothing was written yet."""
+                nonlocal rid
+                p = protos[conn]
+                current["conn"] = conn
+                before = len(driver.state.paired_clients)
+                ev_start = len(events)
+                events.append({"ev": "req", "rid": rid, "conn": conn})
+                p.transport.last = None
+                if crafted is not None:
+                    with patch.object(p.handler, "dispatch", crafted):
+                        p.data_received(data)
+                else:
+                    p.data_received(data)
+                after = len(driver.state.paired_clients)
+                reqs.append({"rid": rid, "conn": conn, "kind": kind, "before": before, "after": after,
+                             "ev": [ev_start, len(events)], "m5ok": m5ok})
+                model_steps.append(model_step)
+                rid += 1
+                return p.transport.last
+
             for st in script["steps"]:
                 if st["step"] == "request":
                     p = protos[st["conn"]]
                     if p.transport.is_closing():
                         # the session was torn down (C16 repair): asyncio delivers nothing on a closed
                         # transport, so the step is dropped here; the model must drop it on its own
-                        model_steps.append({k: v for k, v in st.items()})
+                        ms = {k: v for k, v in st.items()}
+                        if ms["req"] == "m5real":
+                            ms["req"] = "other"
+                        model_steps.append(ms)
                         dropped += 1
                         continue
-                    current["conn"] = st["conn"]
                     kind = st["req"]
-                    before = len(driver.state.paired_clients)
-                    ev_start = len(events)
-                    events.append({"ev": "req", "rid": rid, "conn": st["conn"]})
                     crafted = None
+                    if kind == "m5real":
+                        # a complete pair-setup by the independent reference controller: M1, M3, M5 through
+                        # the real handler (SRP, _pairing_five); in the model: other, other, m5
+                        real_pair_setup(deliver, st["conn"], st["client"], bytes(driver.state.pincode))
+                        continue
                     if kind == "m5":
                         def crafted(_req, _body=None, st=st):
                             resp = H.HAPResponse()
@@ -924,17 +1128,8 @@ def impl_sys(m, script) -> Dict[str, Any]:
                         data = _request_bytes("/pairings", body)
                     else:
                         data = _request_bytes("/accessories", b"", method="GET")
-                    if crafted is not None:
-                        with patch.object(p.handler, "dispatch", crafted):
-                            p.data_received(data)
-                    else:
-                        p.data_received(data)
-                    after = len(driver.state.paired_clients)
-                    reqs.append({"rid": rid, "conn": st["conn"], "kind": kind, "before": before, "after": after,
-                                 "ev": [ev_start, len(events)], "m5ok": kind == "m5" and st["ok"]})
-                    ms = {k: v for k, v in st.items()}
-                    model_steps.append(ms)
-                    rid += 1
+                    deliver(st["conn"], kind, data, {k: v for k, v in st.items()}, crafted,
+                            m5ok=kind == "m5" and st["ok"])
                 elif st["step"] == "exec":
                     ex.run_one(st["i"])  # out of range: nothing happens (nor in the model)
                     execs_since_spin += 1
@@ -956,14 +1151,14 @@ def impl_sys(m, script) -> Dict[str, Any]:
                     else:
                         model_steps.append({"step": "taskDone", "i": st["i"]})
                 elif st["step"] == "quiesce":
-                    n = 0
-                    while ex.pending and n < 1000:
-                        ex.run_one(0)
-                        execs_since_spin += 1
-                        model_steps.append({"step": "execRun", "i": 0})
-                        n += 1
-                    flush_loop()
-                    flush_loop()
+                    for _ in range(4):  # until nothing is scheduled any more (delayed responses need a few rounds)
+                        n = 0
+                        while ex.pending and n < 1000:
+                            ex.run_one(0)
+                            execs_since_spin += 1
+                            model_steps.append({"step": "execRun", "i": 0})
+                            n += 1
+                        flush_loop()
             final = sorted([[int(u.int) - 1, bool(driver.state.is_admin(u))] for u in driver.state.paired_clients])
             pending = len(ex.pending)
             closed = sorted(k for k, p in protos.items() if p.transport.is_closing())
@@ -1012,23 +1207,28 @@ def oracle_sys(ctx: Ctx, script, got):
             if e["id"] != MAC:
                 ctx.fail("C18:id-not-mac", f"record id {e['id']!r}", rep)
                 return
-    # (2) the refreshed record of the last step of pairing / unpairing comes after that step's response
+    # (2) the refreshed record of the last step of pairing / unpairing comes after that step's response:
+    #     no record reaches the advertiser between the arrival of the request and the moment the response
+    #     bytes are handed to the transport (the actual write, also when the response is a delayed one;
+    #     one request is outstanding per connection, so it is the next write on that connection)
+    quiesced = bool(script["steps"]) and script["steps"][-1]["step"] == "quiesce"
     for r in got["reqs"]:
         last_step = r["m5ok"] or ((r["before"] == 0) != (r["after"] == 0))
         if not last_step:
             continue
-        a, b = r["ev"]
-        kinds = [e["ev"] for e in ev[a:b]]
-        if "publish" in kinds and ("write" not in kinds or kinds.index("publish") < kinds.index("write")):
+        a = r["ev"][0]
+        w = next((i for i in range(a + 1, len(ev)) if ev[i]["ev"] == "write" and ev[i]["conn"] == r["conn"]), None)
+        window = ev[a + 1 : w if w is not None else len(ev)]
+        if any(e["ev"] == "publish" for e in window):
             ctx.fail("C18:advert-before-response",
                      f"request {r['rid']} ({r['kind']}) changed the pairing state {r['before']}->{r['after']} and the refreshed "
                      "record reached the advertiser before the response was written", rep)
             return
-        if "write" not in kinds:
+        if w is None and quiesced:
             ctx.fail("C18:pairing-response-not-written", f"request {r['rid']} ({r['kind']}) got no response", rep)
             return
     # (3) once everything scheduled has run, the advertised flag is that of the final state
-    if script["steps"] and script["steps"][-1]["step"] == "quiesce":
+    if quiesced:
         last = [e for e in ev if e["ev"] in ("register", "publish")]
         final_unpaired = len(got["final"]) == 0
         if not last or (last[-1]["sf"] == "1") != final_unpaired:
@@ -1066,6 +1266,20 @@ def source_constants() -> Dict[str, Any]:
                     out[n] = "<not a constant expression>"
         for n in names:
             out.setdefault(n, None)
+    # which handler functions attach a task to the response (deferred write): the ordering theorem needs
+    # that a pairing-changing response is never deferred (Proofs.AdvertSys.handle_changed_not_task)
+    tree = ast.parse((REPO / "pyhap/hap_handler.py").read_text())
+    task_setters = set()
+    for fn in ast.walk(tree):
+        if isinstance(fn, (ast.FunctionDef, ast.AsyncFunctionDef)):
+            for node in ast.walk(fn):
+                targets = node.targets if isinstance(node, ast.Assign) else [node.target] if isinstance(node, (ast.AnnAssign, ast.AugAssign)) else []
+                val = getattr(node, "value", None)
+                if isinstance(val, ast.Constant) and val.value is None:
+                    continue  # HAPResponse.__init__: no task
+                if any(isinstance(t, ast.Attribute) and t.attr == "task" for t in targets):
+                    task_setters.add(fn.name)
+    out["TASK_HANDLERS"] = sorted(task_setters)
     return out
 
 
@@ -1094,6 +1308,11 @@ def run(ctx: Ctx):
     lines: List[Dict[str, Any]] = []
     impl: List[Any] = []
     post: List[Any] = []  # per line: (stream, case, canonicaliser for the model answer)
+
+    # --- restarts in new processes: started now (children run beside the in-process streams), judged below
+    chains = [gen_xrestart_chain(rng) for _ in range(ctx.n(1, 6))]
+    xpool = concurrent.futures.ThreadPoolExecutor(max_workers=3)
+    xfuts = [xpool.submit(impl_xrestart, ch) for ch in chains]
 
     # --- names
     consts = source_constants()
@@ -1235,6 +1454,8 @@ def run(ctx: Ctx):
     scripts = [json.loads(json.dumps(s)) for s in BOUNDARY_SCRIPTS]
     for _ in range(ctx.n(400, 8000)):
         scripts.append(gen_sys_script(rng, big=not ctx.quick and rng.random() < 0.3))
+    for _ in range(ctx.n(4, 40)):
+        scripts.append(gen_real_script(rng))
     for i, script in enumerate(scripts):
         got = impl_sys(m, script)
         oracle_sys(ctx, script, got)
@@ -1253,6 +1474,24 @@ def run(ctx: Ctx):
         st.hit("outcome", "sys-requests-dropped-on-closed-connection", got["dropped"])
         if i == 1:
             st.sample({"sys_script": script, "impl_trace": canon_sys_impl(got)})
+
+    # --- restarts in new processes: collect
+    for ch, fut in zip(chains, xfuts):
+        got = fut.result()
+        oracle_xrestart(ctx, ch, got)
+        outs = got["outs"]
+        lines.append({"layer": "advert", "op": "cfg", "cfg": ch["cfg0"] or 1, "hash": None,
+                      "ops": [["set", o["h"]] for o in outs]})
+        impl.append([o["c"] for o in outs])
+        post.append(("xrestart-cfg", {"expect": [r["expect"] for r in ch["runs"]], "seeds": [r["seed"] for r in ch["runs"]]},
+                     lambda a: [x[0] for x in a.get("ok", [])]))
+        st.case(["xr", ch], True)
+        st.hit("op", "xrestart-process", len(outs))
+        for r, o, prev in zip(ch["runs"], outs, [None] + outs[:-1]):
+            st.hit("outcome", "xrestart-" + r["expect"] + ("" if prev is None else ("-moved" if o["c"] != prev["c"] else "-kept")))
+        if len(st.samples) < 4:
+            st.sample({"xrestart": [{"hashseed": o["hashseed"], "expect": r["expect"], "c#": o["c"]} for r, o in zip(ch["runs"], outs)]})
+    xpool.shutdown()
 
     # --- constants
     lines.append({"layer": "advert", "op": "consts"})
@@ -1307,6 +1546,12 @@ def search(ctx: Ctx):
         for _ in range(600):
             script = gen_sys_script(rng, big=rng.random() < 0.3)
             oracle_sys(ctx, script, impl_sys(m, script))
+        for _ in range(3):
+            ch = gen_xrestart_chain(rng)
+            oracle_xrestart(ctx, ch, impl_xrestart(ch))
+        for _ in range(12):
+            script = gen_real_script(rng)
+            oracle_sys(ctx, script, impl_sys(m, script))
         for _ in range(80):
             a = gen_config(rng)
             kind, b, changed = mutate_config(rng, a)
@@ -1344,6 +1589,10 @@ def replay(ctx: Ctx, r):
         got = impl_xhm(m, r["case"])
         oracle_xhm(ctx, r["case"], got)
         print("xhm_uri", got)
+    elif kind == "xrestart":
+        got = impl_xrestart(r["chain"])
+        oracle_xrestart(ctx, r["chain"], got)
+        print("starts:", [(x["seed"], x["expect"], o["c"], o["h"][:8]) for x, o in zip(r["chain"]["runs"], got["outs"])])
     elif kind == "sys":
         got = impl_sys(m, r["script"])
         oracle_sys(ctx, r["script"], got)
